@@ -1014,6 +1014,14 @@ fn c08_post(plan: &mut LPlan, seed: u64) {
         }
         plan.horizon_ms = plan.horizon_ms.max(t1 + 70_000);
     }
+    // the reader of an uplink reports a receive error now and then (an ICMP error collected with the
+    // next datagram): not a silence, not a send failure - the uplink stays
+    if r.chance(0.4) {
+        for _ in 0..r.range(1, 6) {
+            let t = r.range(3_500, plan.horizon_ms.max(3_501));
+            plan.actions.push(TimedAction { t, kind: Action::UplinkRecvError { link: r.below(plan.n_links as u64) as usize } });
+        }
+    }
     // long bind-failure episodes in the long runs
     if plan.horizon_ms >= 300_000 {
         let link = r.below(plan.n_links as u64) as usize;
@@ -1096,6 +1104,62 @@ impl Check for XCheck {
     }
     fn expected_probes(&self) -> Vec<&'static str> {
         vec!["x.client_judged", "x.second_event_on_subscription"]
+    }
+}
+
+/// Engine R wrapper: the real uplink reader tasks over loopback UDP sockets (C09, upstream of the
+/// uplink channel).
+pub struct RCheck {
+    pub runs_quick: u64,
+    pub runs_thorough: u64,
+}
+
+impl Check for RCheck {
+    fn id(&self) -> &'static str {
+        "C09"
+    }
+    fn engine(&self) -> &'static str {
+        "R"
+    }
+    fn level(&self) -> &'static str {
+        "fault_enumeration"
+    }
+    fn runs(&self, tier: Tier) -> u64 {
+        match tier {
+            Tier::Quick => self.runs_quick,
+            Tier::Thorough => self.runs_thorough,
+        }
+    }
+    fn generate(&self, run_seed: u64, _index: u64, _tier: Tier) -> Value {
+        crate::rsim::generate(run_seed).to_value()
+    }
+    fn execute(&self, plan: &Value, want_excerpt: bool) -> RunOutcome {
+        let plan = match crate::rsim::RPlan::from_value(plan) {
+            Ok(p) => p,
+            Err(e) => panic!("{e}"),
+        };
+        crate::rsim::execute(&plan, want_excerpt)
+    }
+    fn shrink(&self, plan: &Value) -> Vec<Value> {
+        match crate::rsim::RPlan::from_value(plan) {
+            Ok(p) => crate::rsim::shrink(&p).into_iter().map(|p| p.to_value()).collect(),
+            Err(_) => Vec::new(),
+        }
+    }
+    fn rule(&self) -> String {
+        "one run = 1..3 uplink sockets on loopback served by the real reader tasks (sync_readers / spawn_reader over BatchUdpSocket::recv_batch), a peer that sends bursts of 1..70 datagrams of 1..1500 bytes with zero-length datagrams at chosen positions, and a seeded schedule of how long the readers may run between two actions (not at all / a few polls / to quiescence) and of re-synchronisations; per uplink the loop's channel must deliver exactly the non-empty datagrams sent to its socket, byte for byte, in order, each once, under that uplink's connection id".into()
+    }
+    fn assumptions(&self) -> Vec<String> {
+        vec!["loopback UDP delivers synchronously and in order into the receiving socket's buffer; the volumes generated stay far below the buffer size; every task runs on one thread under a seeded current-thread runtime and the determinism spot check guards replay".into()]
+    }
+    fn real_components(&self) -> Vec<String> {
+        vec!["src/sender/uplink.rs sync_readers / spawn_reader, src/net/batch_recv.rs BatchUdpSocket::recv_batch + RecvMmsgBuffer (recvmmsg), the uplink channel; kernel loopback UDP".into()]
+    }
+    fn stub_components(&self) -> Vec<String> {
+        vec!["[R] the rest of the sender: only the reader tasks and the channel run here; the event loop is the simulator draining the channel".into()]
+    }
+    fn expected_probes(&self) -> Vec<&'static str> {
+        vec!["r.uplink_judged"]
     }
 }
 
@@ -1554,6 +1618,12 @@ pub fn all() -> Vec<Box<dyn Check>> {
         weights: vec![1, 1],
     }));
     v.push(Box::new(crate::tsim::c20::C20Check));
+    // C09: the reader tasks upstream of the uplink channel (engine R)
+    {
+        let pos = v.iter().position(|c| c.id() == "C09").unwrap();
+        let first = v.remove(pos);
+        v.insert(pos, Box::new(Multi { id: "C09", parts: vec![first, Box::new(RCheck { runs_quick: 160, runs_thorough: 8000 })], weights: vec![3, 1] }));
+    }
     // C18 / C20: the control socket's connection task on socket pairs (engine X)
     for (prop, weight) in [("C18", 100u64), ("C20", 150u64)] {
         let pos = v.iter().position(|c| c.id() == prop).unwrap();
